@@ -93,8 +93,8 @@ Proof. exists rx_state. eexists. split; [vm_compute; reflexivity | vm_compute; t
 (* ---------- the pandas mixin with default arguments (finding #11) ----------
    Series.reindex fills new periods with NaN whatever the dtype, and the casting assignment turns NaN into
    INT64_MIN / True / 'na': the new periods do not hold the dtype defaults 0 / False / ''. *)
-Definition pd_like_series_reindex : span -> list cell -> span -> option string -> pyval -> outcome (list cell) :=
-  fun old data new _ fv =>
+Definition pd_like_series_reindex : span -> dtype -> list cell -> span -> option string -> pyval -> outcome (list cell) :=
+  fun old _ data new _ fv =>
     Ret (map (fun p => match pos p (span_labels old) with
                        | Some q => nth q data (CF FNan)
                        | None => match fv with PNone => CF FNan | PInt z => CI z | PFlt f => CF f | PBool b => CB b | PStr s => CS s end
@@ -139,8 +139,17 @@ Proof. vm_compute. reflexivity. Qed.
 
 (* the conversion table on a few entries (exercised entry by entry by the correspondence check) *)
 Example rx_cast_examples :
-  cast_tbl DInt (PFlt (FNum (-5))) = Ret (CI (-2)) /\ cast_tbl DInt (PFlt FNan) = Raise ValueError
-  /\ cast_tbl (DStr 2) (PFlt (FNum 5)) = Ret (CS "2.") /\ cast_tbl (DStr 9) (PFlt (FNum (-1))) = Ret (CS "-0.5")
-  /\ cast_tbl DFloat (PStr "-3") = Ret (CF (FNum (-6))) /\ cast_tbl DBool (PStr "") = Ret (CB false)
-  /\ cast_tbl (DStr 9) (PInt (-30)) = Ret (CS "-30") /\ cast_tbl DInt (PStr "12") = Ret (CI 12).
+  cast_tbl 1 DInt (PFlt (FNum (-5))) = Ret (CI (-2)) /\ cast_tbl 1 DInt (PFlt FNan) = Raise ValueError
+  /\ cast_tbl 1 (DStr 2) (PFlt (FNum 5)) = Ret (CS "2.") /\ cast_tbl 1 (DStr 9) (PFlt (FNum (-1))) = Ret (CS "-0.5")
+  /\ cast_tbl 1 DFloat (PStr "-3") = Ret (CF (FNum (-6))) /\ cast_tbl 1 DBool (PStr "") = Ret (CB false)
+  /\ cast_tbl 1 (DStr 9) (PInt (-30)) = Ret (CS "-30") /\ cast_tbl 1 DInt (PStr "12") = Ret (CI 12)
+  (* NumPy converts the fill value only when there is an element to fill; int() of the same text fails before NumPy is reached *)
+  /\ cast_tbl 1 DFloat (PStr "ab") = Raise ValueError /\ cast_tbl 0 DFloat (PStr "ab") = Ret (CF FNan)
+  /\ cast_tbl 0 DInt (PStr "ab") = Raise ValueError.
 Proof. vm_compute. repeat split. Qed.
+(* ... so reindexing to an EMPTY span succeeds with a fill value that a non-empty span rejects *)
+Example rx_bad_fill_empty_span :
+  option_map (fun s => map (fun kv => s_data (snd kv)) (c_vars s))
+             (match reindex_M no_pandas no_contains cast_tbl rx_state (SList []) 9 PNone None [("F", PStr "x y")] 100 with Ret s => Some s | Raise _ => None end)
+  = Some [[]; []; []; []].
+Proof. vm_compute. reflexivity. Qed.
